@@ -53,7 +53,7 @@ NEAR_NAMES = ["lost+foundx", "libx", "xlib", "bin2", "etcetera", "devel", "no~te
               "Lost+Found", "GopherMap", "Veronica.ctl", "form.ASK",
               # names that are not in Unicode composed form (and a composed twin)
               "cafe\u0301.txt", "caf\u00e9.txt", "A\u030angstrom", "\u1100\u1161.txt"]
-PLAIN_NAMES = ["alpha.txt", "beta.html", "gamma", "delta.txt", "Zeta", "eta.jpg", "10", "9", "B.txt", "a.txt"]
+PLAIN_NAMES = ["alpha.txt", "beta.html", "gamma", "delta.txt", "Zeta", "eta.jpg", "10", "9", "B.txt", "a.txt", "1", "2"]
 DOT_NAMES = [".hidden", ".profile", ".x", ".private", ".d"]
 DOT_DIRS = [".private", ".d"]
 LINK_FILES = [".names", ".links", ".Links", ".extra"]
@@ -68,13 +68,30 @@ DOT_BODIES = ["", "# comment only\n", "Port=auto\n", "Type=\n", "Numb=x\n", "jus
               "KEY=value\nPort=auto\n", "#c\nType=\nName=\n"]
 
 
+_ZEROS_TAIL = {"b64": __import__("base64").b64encode(b"\0" * 300 + b"PK\x05\x06" + b"\0" * 18).decode()}
+FULL_EXTRAS = [
+    ("why", {"k": "file", "d": "#!/bin/sh\necho because $*\n", "x": True}),
+    ("notes.tal", {"k": "file", "d": "<html><body tal:content=\"selector\">x</body></html>\n"}),
+    ("b.html.tal", {"k": "file", "d": "<html><head><title>T</title></head><body>b</body></html>\n"}),
+    ("broken.pyg", {"k": "file", "d": "def (:\n", "x": True}),
+    ("nomain.pyg", {"k": "file", "d": "x = 1\n", "x": True}),
+    ("raises.pyg", {"k": "file", "d": "raise RuntimeError('at import')\n", "x": True}),
+    ("cut.zip", {"k": "file", "d": _ZEROS_TAIL}),
+    ("odd.zip", {"k": "zip", "members": [["a", "a file\n"], ["a/b", "below a file\n"]]}),
+    ("good.zip", {"k": "zip", "members": [["a.txt", "zip a\n"], ["d/", ""], ["d/b.txt", "zip b\n"]]}),
+    ("t.txt.gz", {"k": "file", "d": {"b64": __import__("base64").b64encode(
+        __import__("gzip").compress(b"compressed\n", mtime=0)).decode()}}),
+]
+
+
 def _ctl(nm):
     return any(c in nm for c in "\t\r\n")
 
 
 def gen(seed, index, tier):
     rng = random.Random(seed)
-    dname = rng.choice(["docs", "docs", ""])
+    # (the last one: a directory whose selector looks like a mailbox message selector)
+    dname = rng.choice(["docs", "docs", "", "docs", "", "arch?/MBOX-MESSAGE"])
     pre = (dname + "/") if dname else ""
     n = rng.randrange(3, 13)
     names = set()
@@ -89,11 +106,25 @@ def gen(seed, index, tier):
         names.add("box")
         for nm in rng.sample(SEP_NAMES, rng.choice([1, 2, 3])):
             names.add(nm)
+    handlers = rng.choice(["default", "default", "default", "plaindir", "full"])
+    full_extra = {}
+    if handlers == "full":
+        # entries that the handlers of the documented "full featureset" list look into while their
+        # directory is being listed
+        for nm, ent in rng.sample(FULL_EXTRAS, rng.randrange(1, 5)):
+            full_extra[nm] = ent
+            names.add(nm)
+        if "why" in full_extra:
+            for sib in rng.sample(["why?.txt", "why|notes", "why?"], rng.choice([1, 2])):
+                names.add(sib)
     names = sorted(names)
     spec = ([{"p": dname, "k": "dir"}] if dname else [])
     kinds = {}
     for nm in names:
-        if nm == "box" and mailbox:
+        if nm in full_extra:
+            spec.append(dict(full_extra[nm], p=pre + nm))
+            kinds[nm] = "special"
+        elif nm == "box" and mailbox:
             spec.append({"p": pre + nm, "k": mailbox, "n": 2})
             kinds[nm] = mailbox
         elif nm in DOT_DIRS or (rng.random() < 0.2 and not nm.startswith(".") and "." not in nm
@@ -167,7 +198,7 @@ def gen(seed, index, tier):
         "spec": spec, "dir": dname, "names": names, "kinds": kinds,
         "linkfiles": links, "additions": additions,
         "hidden_link": sorted(hidden), "hidden_cap": sorted(caphidden),
-        "handlers": rng.choice(["default", "default", "default", "plaindir"]),
+        "handlers": handlers,
         "proto": rng.choice(["gopher", "gopher", "http", "gopher$", "gemini", "spartan", "wap", "gopher+"]),
         "K": 4 if tier == "quick" else 10,
         "servertype": rng.choice(["ThreadingTCPServer", "ForkingTCPServer"]),
